@@ -40,6 +40,7 @@ def rules(ctx):
     c165(ctx)
     c166(ctx)
     c167(ctx)
+    c168(ctx)
 
 
 ENC = re.compile(r"::(append_to|extend|extend_with_key|extend_field_number|field_number|append|builder|build|finish|tuple_key|unit|bytes|string|"
@@ -538,3 +539,36 @@ def c167(ctx):
             ctx.check(R, f, "terminator-read", len(nuls) >= 2 and len(set(nuls)) >= 2, "the element ends at 0x00 0x00 and nowhere else",
                       "the reader ends a byte string without having seen 0x00 0x00", pt=pt)
         ctx.floor(R, "Ok exits of the reader", len(P.ok_points(f)), 1)
+
+
+# ------------------------------------------------------------------------------------------------
+# C16.8 one element, one seven-bit run: the terminator (low bit clear) appears once, at the element's end
+
+def c168(ctx):
+    R = "C16.8"
+    ctx.declare(R, "a variable-length element of the field-numbered format is packed by ONE Iterate7BitChunks over the whole value: the last chunk of a "
+                   "run has its continuation bit clear, so a value packed in several runs carries a terminator in its middle and sorts against the "
+                   "next field's tag there")
+    n = 0
+    for f in sorted(ctx.prog.fns.values(), key=lambda f: f.key):
+        if f.crate != "tuple_key" or f.name != "append_to" or not (f.impl_trait or "").startswith("tuple_key::Element"):
+            continue
+        reach = [f] + [g for k_ in ctx.prog.reach([f.key], crates={"tuple_key"}, depth=2) for g in [ctx.prog.fns.get(k_)] if g is not None and g is not f]
+        news = [(g, p_) for g in reach for p_ in P.call_points(g, r"tuple_key::iter7::Iterate7BitChunks::new$")]
+        if not news:
+            continue
+        n += 1
+        ok = len(news) == 1
+        why = "%d runs are started" % len(news)
+        if ok:
+            g, p_ = news[0]
+            in_loop = P.reach(g, P.after(g, p_), [p_]) is not None
+            t = P.term_at(g, p_)
+            narrowed = any(x["k"] == "call" and re.search(r"index::index$|Index.*::index$|::(chunks|chunks_exact|split_at|get)$", x["callee"]) for x in P.origins(g, t["args"][0]))
+            whole = any(x["k"] == "param" and x["i"] == 1 for x in P.origins(g, t["args"][0]))
+            ok = not in_loop and not narrowed and (whole or g is not f)
+            why = "the run is started inside a loop" if in_loop else ("the run covers a part of the value" if narrowed else "the run does not start from the value itself")
+        ctx.check(R, f, "one-run-per-element", ok, "%s packs the whole value in one seven-bit run" % strip_generics(f.impl_self or ""),
+                  "%s::append_to does not pack the value in one seven-bit run (%s): each run ends with a chunk whose continuation bit is clear, which "
+                  "readers and byte-wise comparison take for the end of the element" % (strip_generics(f.impl_self or ""), why), pt=news[0][1] if news[0][0] is f else None)
+    ctx.floor(R, "variable-length Element impls", n, 1)
